@@ -136,12 +136,7 @@ def run(ck):
                     sample={"tier": "Lij", "crystal": nm, "pair": [N1, N2], "rel_diff": [float(e) for e in errs]} if n <= 3 else None)
             doc.update(L_small=[x.tolist() for x in L1], L_large=[x.tolist() for x in L2])
             if max(errs) > 1e-7:
-                Q, npolar = polar_projector(d1)
-                eq = max(np.abs(Q @ (x - y) @ Q).max() / scale for x, y in zip(L1, L2))
-                if npolar and eq <= 1e-7:
-                    ck.violation("Nthermo %d vs %d differ by %.3g in the span of the site vector basis" % (N1, N2, max(errs)), doc, key="c07-originstate-vectorbasis")
-                else:
-                    ck.violation("Nthermo %d vs %d give different tensors (L0vv,Lss,Lsv,L1vv rel. diffs %s)" % (N1, N2, ["%.2g" % e for e in errs]), doc, key="c07-Lij")
+                ck.violation("Nthermo %d vs %d give different tensors (L0vv,Lss,Lsv,L1vv rel. diffs %s)" % (N1, N2, ["%.2g" % e for e in errs]), doc, key="c07-Lij")
     # ---- exact tier: the two chains are the SAME edge multiset, decided in Coq over Z (single-Wyckoff crystals, dyadic tag data,
     # zero energies: every rate, including the LIMB back-fill sqrt(p*p) = p, is an exact dyadic rational)
     import re
